@@ -629,7 +629,8 @@ def run(ctx):
     # tie of theorem emitted_rq_wf_counterexample: the two transcribed documents are what the compiler emits today
     wit = [(DECL + "from t | sort b | select {a} | take 2", "bad not-visible 1; lax ok"),
            (DECL + "from t | sort b | aggregate {s = sum a} | derive {r = row_number this}", "bad not-visible 1; lax ok"),
-           (DECL + "from t | sort {b} | append (from t | take 2..3)", "bad not-visible 1; lax bad not-visible 1")]
+           (DECL + "from t | sort {b} | append (from t | take 2..3)", "bad not-visible 1; lax bad not-visible 1"),
+           (DECL + "from t | group {b} (sort {a} | take 2 | select {a, c})", "bad not-visible 1; lax bad not-visible 1")]
     wa = vh_batch([{"op": "rq", "prql": p} for p, _ in wit])
     wm = drv_batch([f"wfrq\t{enc(json.dumps(a.get('rq'), ensure_ascii=True))}" for a in wa])
     same = all(m == e for m, (_, e) in zip(wm, wit))
